@@ -30,7 +30,27 @@ GPUS = [None, 0, 2]
 MEM = [None, "500MB", "2GB", "1024MB"]
 MEM_FULL = [None, "500MB", "2GB", "1.5GB", "1024MB", "1TB", "900B", "3kb", "1500MB", "0.5PB"]
 TIME = [None, "30:00", "2:00:00", "10:00:00"]
-TIME_FULL = [None, "30:00", "2:00:00", "10:00:00", "1:02:03:04", "99:59", "02:00:00", "100:00:00", "9:59:59", "1:00:00:00"]
+def _spellings(seconds):
+    """every valid spelling of a duration: MM:SS (< 100 min), H:MM:SS / HH:MM:SS (hours unbounded), D:HH:MM:SS (hours < 100)"""
+    out = []
+    m, sec = divmod(seconds, 60)
+    if m < 100:
+        out.append(f"{m:02d}:{sec:02d}")
+    h, mm = divmod(m, 60)
+    out.append(f"{h}:{mm:02d}:{sec:02d}")
+    if h < 10:
+        out.append(f"{h:02d}:{mm:02d}:{sec:02d}")
+    d, hh = divmod(h, 24)
+    if d:
+        out.append(f"{d}:{hh:02d}:{mm:02d}:{sec:02d}")
+    if d >= 1 and hh + 24 < 100:
+        out.append(f"{d - 1}:{hh + 24:02d}:{mm:02d}:{sec:02d}")  # e.g. 0:30:00:00 — hours field above 23 is accepted by the format
+    return out
+
+
+# durations chosen around every unit boundary (1 h, 24 h, and 60 h = where a wrong day factor of 60**3 would land)
+DURATIONS = [30 * 60, 99 * 60 + 59, 2 * 3600, 10 * 3600, 24 * 3600, 25 * 3600 + 123, 30 * 3600, 48 * 3600, 59 * 3600, 61 * 3600, 100 * 3600]
+TIME_FULL = [None] + sorted({s for d in DURATIONS for s in _spellings(d)})
 PART = [None, "p"]
 EXTRA = [{}, {"a": 1}]
 EXTRA_FULL = [{}, {"a": 1}, {"b": 2}, {"a": 3}]
@@ -329,6 +349,10 @@ def run_unit(unit):
         _, q, L, first, n = unit
         al = focus_alphabet(q)
         heads = [al[first]] if L == 4 else None
+        if L >= 3 and q in ("time", "memory"):
+            # lists of >= 3 operands over the long time/memory alphabets: the background is fixed (it is varied for L <= 2)
+            al = [kw for kw in al if {k: v for k, v in kw.items() if k != q} == {k: v for k, v in BACKGROUNDS[0].items() if k != q}]
+            heads = [al[first % len(al)]] if L == 4 else None
         for ops in itertools.product(*([heads] if heads else []), *([al] * (L - (1 if heads else 0)))):
             ops = list(ops)
             do({"op": "combine", "ops": ops}, (f"l|{ops}" if _decisive(ops) else None))
